@@ -14,6 +14,13 @@ import torch
 
 from common import err_class, time_limit
 
+def slow_is_infra(e):
+    """a time limit that expires says something about the box (exit 2), never about the property"""
+    if isinstance(e, TimeoutError):
+        from common import Infra
+        raise Infra(f"an implementation call did not finish within its time limit on this box: {e}")
+
+
 NAME_POOL = ["a", "b", "c", "d", "e"]
 SEPS = [".", "_", "/", "__", "-."]
 
@@ -439,6 +446,10 @@ def run_block(st, name, args, kwargs, edits, limit=30.0, recorder=None, canon_op
                 except Exception:  # noqa: BLE001
                     binds["inv"] = None
     except Exception as e:  # noqa: BLE001
+        if isinstance(e, TimeoutError):
+            # a 30 s limit on a block over a few hundred numbers: the box, not the property (exit 2, never a verdict)
+            from common import Infra
+            raise Infra(f"a context-managed block did not finish within {limit} s on this box")
         return ["err", err_class(e)], td, ymeta, before, None, e, None
     binds["after"] = ptrs(td)
     binds["same_obj"] = {k: (td.get(k) is binds["objs"].get(k)) for k in leaf_keys(td)}
@@ -549,6 +560,7 @@ def run_nested(st, kind, op1, sp1, op2, sp2, edits2, edits1, limit=30.0):
                 for i, e in enumerate(edits1):
                     do_edit(y, e, 10 + i)
     except Exception as e:  # noqa: BLE001
+        slow_is_infra(e)
         return ["err", err_class(e)], td, None, e
     # by hand, LIFO
     try:
@@ -602,8 +614,13 @@ def build_lazy(st, lock=None, sd=0):
     from tensordict import TensorDict
     bs, names, keys, _ = st
     parts = []
+    mnames = None
+    if names is not None:
+        mnames = [x for q, x in enumerate(names) if q != sd]
+        if all(x is None for x in mnames):
+            mnames = None
     for j in range(bs[sd]):
-        m = TensorDict({}, batch_size=[x for q, x in enumerate(bs) if q != sd])
+        m = TensorDict({}, batch_size=[x for q, x in enumerate(bs) if q != sd], names=mnames)
         for i, k in enumerate(keys):
             feat = (2,) if i % 2 else ()
             shape = tuple(bs) + feat
@@ -615,7 +632,7 @@ def build_lazy(st, lock=None, sd=0):
     if lock == "members":
         for m in parts:
             m.lock_()
-    lz = LazyStackedTensorDict(*parts, stack_dim=sd)
+    lz = LazyStackedTensorDict(*parts, stack_dim=sd, stack_dim_name=(None if names is None else names[sd]))
     if lock == "stack" or (lock is None and st[3]):
         lz.lock_()
     elif lock == "relocked":
